@@ -50,3 +50,47 @@ func DebugCase(seed uint64, idx int, withOtto bool, raw string) string {
 	}
 	return b.String()
 }
+
+// DebugBench times the first n cases of a seed and reports per-category
+// totals and the slowest cases.
+func DebugBench(seed uint64, n int) string {
+	type rec struct {
+		idx          int
+		model, ottoT float64
+		cat          string
+	}
+	var recs []rec
+	tot := map[string][2]float64{}
+	cnt := map[string]int{}
+	for i := 0; i < n; i++ {
+		in := generate(gen.New(seed, "C08", i), i)
+		t0 := nowSec()
+		m, st := runModel(&in, 0, 0)
+		t1 := nowSec()
+		if st == "" {
+			runOtto(&in, m.sortLen)
+		}
+		t2 := nowSec()
+		recs = append(recs, rec{i, t1 - t0, t2 - t1, in.Cat})
+		x := tot[in.Cat]
+		x[0] += t1 - t0
+		x[1] += t2 - t1
+		tot[in.Cat] = x
+		cnt[in.Cat]++
+	}
+	var b strings.Builder
+	for k, v := range tot {
+		fmt.Fprintf(&b, "%-8s n=%d model=%.3fs otto=%.3fs  (%.2f ms/case)\n", k, cnt[k], v[0], v[1], 1000*(v[0]+v[1])/float64(cnt[k]))
+	}
+	for j := 0; j < 8; j++ {
+		best := -1
+		for i := range recs {
+			if best < 0 || recs[i].model+recs[i].ottoT > recs[best].model+recs[best].ottoT {
+				best = i
+			}
+		}
+		fmt.Fprintf(&b, "slow: idx=%d cat=%s model=%.1fms otto=%.1fms\n", recs[best].idx, recs[best].cat, 1000*recs[best].model, 1000*recs[best].ottoT)
+		recs[best].model, recs[best].ottoT = 0, 0
+	}
+	return b.String()
+}
